@@ -1,6 +1,6 @@
 # which properties have an extracted model runner, and which translators regenerate coq/gen/*.v
 import os, sys
-MODELS = ["C20", "C17", "C13", "C08", "C18", "C06", "C16", "C19", "C14", "C07", "C10", "C05", "C01", "C12", "C02", "C09", "C04", "C11"]
+MODELS = ["C20", "C17", "C13", "C08", "C18", "C06", "C16", "C19", "C14", "C07", "C10", "C05", "C01", "C12", "C02", "C09", "C04", "C11", "LEX"]
 
 
 def _kw():
